@@ -20,6 +20,7 @@ type Lexer struct {
 	file   string
 	peeks  []token.Token
 	isEOF  bool
+	atEOF  bool // the underlying reader is exhausted (as opposed to a NUL byte in the input)
 
 	customs map[string]token.TokenType
 }
@@ -59,7 +60,11 @@ func (l *Lexer) readChar() {
 	r, _, err := l.r.ReadRune()
 	if err != nil {
 		l.char = 0x00
-		l.index += 1
+		if !l.atEOF {
+			// advance only once so that the EOF position stays just past the last character
+			l.index += 1
+		}
+		l.atEOF = true
 		return
 	}
 	if l.char == 0x0A { // LF
@@ -332,6 +337,11 @@ func (l *Lexer) NextToken() token.Token {
 			t.Literal = "*="
 		}
 	case 0x00: // EOF
+		if !l.atEOF {
+			// A NUL byte inside the input is not the end of the input
+			t = newToken(token.ILLEGAL, l.char, line, index)
+			break
+		}
 		t.Literal = ""
 		t.Type = token.EOF
 		t.Line = line
